@@ -271,6 +271,10 @@ def explore(ctx, rs, om, buckets, sc, dist, cases, samples, max_cuts, two_cases)
             R2 = run_session(rs, rd, sav, True)
             v, kind = analyse(U, j, a, b, pt, R1, R2, replay)
             vio += v
+            gi = cfg1.get("guessing_info", {})
+            if kind in ("ok", "tied") and gi.get("omen_guess_number") != str(j - a + 1):
+                vio.append({"sig": "C15:guess-number", "what": "quit after guess %d of the level: the save file records omen_guess_number=%r"
+                            % (j - a + 1, gi.get("omen_guess_number")), "replay": replay})
             evaluations += 1
             dist["cuts"] += 1
             dist["cuts_" + kind] += 1
